@@ -2,10 +2,10 @@
 //! Online trace monitor over hostile histories (workload A) and a state-hash-guided exploration of
 //! the evaluator's reachable states to a fixpoint (workload B). C16 reuses both with NaN allowed.
 
-use crate::flat::*;
-use crate::gen::*;
-use crate::mon::*;
-use crate::probe::*;
+use ppv::flat::*;
+use ppv::gen::*;
+use ppv::mon::*;
+use ppv::probe::*;
 use piecewise_polynomial::*;
 use serde_json::json;
 use std::collections::{HashMap, VecDeque};
